@@ -423,3 +423,49 @@ _run_before_r5 = run
 def run(ctx):
     _run_before_r5(ctx)
     r5_clock_origin(ctx)
+
+
+def r6_ponder_from_this_search(ctx):
+    """the ponder move announced with bestmove is read from the stored PV, which outlives a go: it must belong to
+    this search"""
+    rid = "C16.R6"
+    ctx.rule(rid, "the ponder move returned by Search::best_move is read from state.principal_variation only when this search stored a PV (guarded by the answer `best_move` being present), or the stored PV is cleared before the iterations: otherwise a go that completes no iteration announces the previous search's reply as ponder move", floor=1)
+    f = ctx.fn(rid, SEARCH + "best_move")
+    cfg, ex = Cfg(f), Exprs(f)
+    names = {int(k): v for k, v in f.get("names", {}).items()}
+    bm = [l for l, n in names.items() if n == "best_move"]
+    reads = [b for b in sorted(cfg.reach) if f["blocks"][b]["term"]["k"] == "call" and (f["blocks"][b]["term"]["callee"].get("key") or "").endswith("SearchState::ponder_move")]
+    if not reads or len(bm) != 1:
+        ctx.lost(rid, "Search::best_move: the SearchState::ponder_move call and the local `best_move`")
+        return
+    bm = bm[0]
+    heads = sorted({h for (a, h) in cfg.back_edges()})
+    # (a) the stored PV is cleared before the iteration loop
+    cleared = False
+    for b in sorted(cfg.reach):
+        for s in f["blocks"][b]["stmts"]:
+            d = s["dst"]
+            if d is not None and d["p"] and isinstance(d["p"][-1], dict) and d["p"][-1].get("name") == "principal_variation":
+                tv = ex.rvalue(s["rv"])
+                if tv[0] == "agg" and tv[2].endswith("Option::None") and heads and all(cfg.dominates(b, h) for h in heads):
+                    cleared = True
+    for r in reads:
+        guarded = False
+        for (a, sb) in cfg.control_deps_transitive(r):
+            sw = f["blocks"][a]["term"]
+            if sw["k"] == "switch" and not cfg.in_loop(a):
+                d = ex.operand(sw["discr"])
+                if ("local", bm) in list(leaves(d)) or any(x[0] == "local" and names.get(x[1]) == "best_move" for x in leaves(d)):
+                    guarded = True
+        ok = guarded or cleared
+        ctx.ob(rid, "ponder-move|from-this-search", ok,
+               "" if ok else "Search::best_move reads the ponder move from state.principal_variation unconditionally; that field keeps the previous search's PV when no iteration of this go was accepted (`go wtime 5 btime 5` after an earlier search answers `bestmove 0000 ponder <reply of the previous search>`)",
+               ctx.where(f, f["blocks"][r]["term"]["line"]), sample={"guarded_by_best_move": guarded, "pv_cleared_before_loop": cleared})
+
+
+_run_before_r6 = run
+
+
+def run(ctx):
+    _run_before_r6(ctx)
+    r6_ponder_from_this_search(ctx)
